@@ -1,0 +1,57 @@
+//go:build verif
+
+// Contracts for package action (C04 signature checking, fee handling).
+// Comment-only file, read by /verif/govc.
+
+package action
+
+// sigOK: signature `sig` is by the key whose address is `addr` and verifies over `data`
+//@ ghost func sigOK(data bytes, addr keys.Address, sig Signature) bool = str(addr) == pkAddr(sig.Signer.KeyType, sig.Signer.Data) && pkVerify(sig.Signer.KeyType, sig.Signer.Data, str(data), str(sig.Signed))
+
+//@ func ValidateBasic
+//@   modifies nothing
+//@   ensures err == nil ==> len(signatures) == len(signerAddr)                                                                   // C04.count
+//@   ensures err == nil ==> forall i int :: 0 <= i && i < len(signerAddr) ==> sigOK(data, signerAddr[i], signatures[i])          // C04.signature
+//@   invariant loop1: 0 <= $i && $i <= len(signerAddr) && len(signatures) == len(signerAddr)                                    // C04.signature
+//@   invariant loop1: forall j int :: 0 <= j && j < $i ==> sigOK(data, signerAddr[j], signatures[j])                            // C04.signature
+
+// ---------------------------------------------------------------- the Tx interface (C04, C06)
+//
+// validatedTx(h, tx) / validatedRaw(h, tx.RawTx): handler h's own Validate accepted the signed transaction tx.
+// It is an uninterpreted token: the only way to obtain it is the postcondition of Validate, so a
+// caller that must prove it before ProcessCheck/ProcessDeliver/ProcessFee has called Validate
+// on exactly that transaction and received true.
+//@ ghost func validatedRaw(h iface, raw RawTx) bool
+//@ ghost func validatedTx(h iface, tx SignedTx) bool
+//@ ghost func rawBytesOf(t RawTx) bytes
+
+//@ interface Tx
+//@   method Validate
+//@     modifies vHas(arg0.State), vVal(arg0.State)
+//@     grants result0 ==> validatedRaw(self, arg1.RawTx) && validatedTx(self, arg1)                        // C04.validated
+//@     ensures err == nil ==> result0                                                                       // C04.validate-ok
+//@     grants sessOpen(arg0.State) == old(sessOpen(arg0.State)) && bHas(arg0.State) == old(bHas(arg0.State)) && bVal(arg0.State) == old(bVal(arg0.State)) && wfState(arg0.State)   // C06.handler-frame
+//@     forbids (*storage.State).BeginTxSession (*storage.State).CommitTxSession (*storage.State).DiscardTxSession (storage.State).Write (*storage.State).Commit (*storage.State).WithoutGas (*storage.State).WithGasStore (*storage.State).LoadVersion (*storage.ChainState).Set (*storage.ChainState).Delete (*storage.ChainState).Commit   // C06.handler-frame
+//@   method ProcessCheck
+//@     requires validatedRaw(self, arg1)                                                                   // C04.validated
+//@     requires sessOpen(arg0.State) && wfState(arg0.State)                                                // C06.session
+//@     modifies vHas(arg0.State), vVal(arg0.State)
+//@     grants sessOpen(arg0.State) && bHas(arg0.State) == old(bHas(arg0.State)) && bVal(arg0.State) == old(bVal(arg0.State)) && wfState(arg0.State)   // C06.handler-frame
+//@     forbids (*storage.State).BeginTxSession (*storage.State).CommitTxSession (*storage.State).DiscardTxSession (storage.State).Write (*storage.State).Commit (*storage.State).WithoutGas (*storage.State).WithGasStore (*storage.State).LoadVersion (*storage.ChainState).Set (*storage.ChainState).Delete (*storage.ChainState).Commit   // C06.handler-frame
+//@   method ProcessDeliver
+//@     requires validatedRaw(self, arg1)                                                                   // C04.validated
+//@     requires sessOpen(arg0.State) && wfState(arg0.State)                                                // C06.session
+//@     modifies vHas(arg0.State), vVal(arg0.State)
+//@     grants sessOpen(arg0.State) && bHas(arg0.State) == old(bHas(arg0.State)) && bVal(arg0.State) == old(bVal(arg0.State)) && wfState(arg0.State)   // C06.handler-frame
+//@     forbids (*storage.State).BeginTxSession (*storage.State).CommitTxSession (*storage.State).DiscardTxSession (storage.State).Write (*storage.State).Commit (*storage.State).WithoutGas (*storage.State).WithGasStore (*storage.State).LoadVersion (*storage.ChainState).Set (*storage.ChainState).Delete (*storage.ChainState).Commit   // C06.handler-frame
+//@   method ProcessFee
+//@     requires validatedTx(self, arg1)                                                                    // C04.validated
+//@     requires sessOpen(arg0.State) && wfState(arg0.State)                                                // C06.session
+//@     modifies vHas(arg0.State), vVal(arg0.State)
+//@     grants sessOpen(arg0.State) && bHas(arg0.State) == old(bHas(arg0.State)) && bVal(arg0.State) == old(bVal(arg0.State)) && wfState(arg0.State)   // C06.handler-frame
+//@     forbids (*storage.State).BeginTxSession (*storage.State).CommitTxSession (*storage.State).DiscardTxSession (storage.State).Write (*storage.State).Commit (*storage.State).WithoutGas (*storage.State).WithGasStore (*storage.State).LoadVersion (*storage.ChainState).Set (*storage.ChainState).Delete (*storage.ChainState).Commit   // C06.handler-frame
+
+//@ interface Router
+//@   method Handler
+//@     modifies nothing
+//@     ensures result != nil
